@@ -179,7 +179,7 @@ def scenario(sim: Sim) -> None:
     starts = [0] * n if stag == 0 else [ch.choice("start", spread) for _ in range(n)]
     if len(set(starts)) > 1:
         sim.probe("staggered_start")
-    spec = dict(n=n, starts=starts, rounds=ch.int_between("rounds", 3, 30), cap=cap,
+    spec = dict(n=n, starts=starts, rounds=ch.int_between("rounds", 3, sim.scale(30, 45)), cap=cap,
                 kind=kind, tree=tree, op3=ch.draw("op3", 2) if kind == "3phase" else 0)
     cost = ch.weighted("cost_mode", [2, 1, 2])
     cost_seed = ch.draw("cost_seed", 1 << 16) if cost == 2 else 0
